@@ -428,6 +428,10 @@ def mk_cmp(op, a, b):
         # identity with None of a known non-None constant
         if a.key == b.key:
             return TRUE if op == 'is' else FALSE
+    if op in ('==', '!=', 'is', 'is not'):
+        for x, y in ((a, b), (b, a)):
+            if _isnone(y) and _known_not_none(x):
+                return FALSE if op in ('==', 'is') else TRUE
     neg = False
     if op in ('>', '>='):           # a > b  ==  b < a
         a, b, op = b, a, CMP_SWAP[op]
@@ -462,6 +466,36 @@ def mk_cmp(op, a, b):
             a, b = b, a
     t = Term.of(Atom('cmp', op, a, b))
     return mk_not(t) if neg else t
+
+
+NOTNONE = set()       # symbol names assumed not None
+
+
+def _known_not_none(x):
+    if x.const() is not None:
+        return True
+    at = x.single_atom()
+    if at is None:
+        return not _isnone(x)      # arithmetic combination
+    if at.kind == 'sym':
+        return at.args[0] in NOTNONE
+    return at.kind in ('str', 'tuple', 'list', 'dict', 'closure', 'new', 'bool', 'seq', 'func', 'class')
+
+
+def truthy(t):
+    """Python truthiness of a term where decidable, else the term itself as a condition."""
+    t = lift(t)
+    if _isnone(t):
+        return FALSE
+    c = t.const()
+    if c is not None:
+        return TRUE if c != 0 else FALSE
+    at = t.single_atom()
+    if at is not None and at.kind in ('closure', 'new', 'func', 'class'):
+        return TRUE
+    if at is not None and at.kind in ('tuple', 'list', 'dict', 'str'):
+        return TRUE if (at.args and at.args != ('',)) else FALSE
+    return t
 
 
 def _numeric_like(t):
@@ -712,8 +746,49 @@ def subst(t, fn, _memo=None):
         for a, e in m:
             x = x * _subst_atom(a, fn, _memo).pow(e)
         res = res + x
+    res = canon_seq(res)
     _memo[t.key] = res
     return res
+
+
+def as_seq(t):
+    """(start, step, n) if t is affine in exactly one seq atom: A + B*seq(s,d,n)."""
+    seqs = [a for a in t.atoms() if a.kind == 'seq']
+    if len(seqs) != 1:
+        return None
+    sa = seqs[0]
+    A = Term()
+    B = Term()
+    for m, c in t.p.items():
+        exps = [e for a, e in m if a == sa]
+        if not exps:
+            A = A + Term({m: c})
+        elif exps == [1]:
+            B = B + Term({tuple((a, e) for a, e in m if a != sa): c})
+        else:
+            return None
+    s, d, n = sa.args
+    return (A + B * s, B * d, n)
+
+
+def mk_seq(start, step, n):
+    return Term.of(Atom('seq', lift(start), lift(step), lift(n)))
+
+
+def canon_seq(t):
+    """A term affine in one seq atom is rewritten as a single seq atom (canonical form)."""
+    if len(t.p) == 1:
+        (m, c), = t.p.items()
+        if c == 1 and len(m) == 1:
+            return t
+    s = as_seq(t)
+    if s is None:
+        return t
+    return mk_seq(*s)
+
+
+def canon(t):
+    return subst(t, lambda a: None)
 
 
 def _subst_atom(a, fn, memo):
@@ -819,6 +894,9 @@ EQUAL, DIFFERENT, UNDECIDED = 'EQUAL', 'DIFFERENT', 'UNDECIDED'
 def compare(a, b, max_conds=8):
     """Three-valued comparison of two terms, eliminating Ite conditions by case analysis."""
     a, b = lift(a), lift(b)
+    if a.key == b.key:
+        return EQUAL, None
+    a, b = canon(a), canon(b)
     if a.key == b.key:
         return EQUAL, None
     conds = {}
